@@ -273,6 +273,59 @@ pub fn twin_datas() -> Vec<Value> {
     ]
 }
 
+/// Long-key alphabet: paths of 33..130 bytes that have the same length and differ only at the end, only at the
+/// start or only in the middle (whatever is remembered about a path by a prefix, a suffix, its length or a
+/// weak hash is wrong for its twin), and key lists wider than any small-set regime with a key listed twice
+/// (the reported order is the order of first mention - every time).
+pub fn long_key_rules() -> Vec<Value> {
+    let mut r = Vec::new();
+    let pre = "customer.billing_address.contact";
+    for tail in ["street", "postal"] {
+        r.push(json!({"var": format!("{}.{}", pre, tail)}));
+        r.push(json!({"missing": [format!("{}.{}", pre, tail), format!("{}.{}x", pre, &tail[..5])]}));
+    }
+    for head in ["a", "b"] {
+        r.push(json!({"var": [format!("{}{}", head, ".k".repeat(32)), "dflt"]}));
+    }
+    let long = |mid: &str| format!("{}{}{}", "seg.".repeat(16), mid, ".seg".repeat(16));
+    r.push(json!({"var": [long("mid1"), "dflt"]}));
+    r.push(json!({"var": [long("mid2"), "dflt"]}));
+    r.push(json!({"var": format!("{}.street", pre.replace(".", "\\."))}));
+    let mut wide: Vec<Value> = (0..40).map(|i| json!(format!("k{}", i))).collect();
+    wide.push(json!("k7"));
+    wide.push(json!("k3"));
+    r.push(json!({"missing": wide}));
+    r.push(json!({"missing_some": [100, wide]}));
+    r.push(json!({"missing_some": [1, wide]}));
+    r.push(json!({"merge": [{"missing": wide}, {"missing": ["k39", "k38"]}]}));
+    r.push(json!({"in": ["k17", {"missing": wide}]}));
+    r
+}
+
+pub fn long_key_datas() -> Vec<Value> {
+    let mut nest_a = json!("A-leaf");
+    let mut nest_b = json!("B-leaf");
+    for _ in 0..32 {
+        nest_a = json!({ "k": nest_a });
+        nest_b = json!({ "k": nest_b });
+    }
+    let mut seg1 = json!("via-mid1");
+    let mut seg2 = json!("via-mid2");
+    for _ in 0..16 {
+        seg1 = json!({ "seg": seg1 });
+        seg2 = json!({ "seg": seg2 });
+    }
+    let mut inner = json!({"mid1": seg1, "mid2": seg2});
+    for _ in 0..16 {
+        inner = json!({ "seg": inner });
+    }
+    vec![
+        json!({"customer": {"billing_address": {"contact": {"street": "1 Main Street", "postal": "AB1 2CD"}}}, "a": nest_a, "b": nest_b, "seg": inner["seg"], "k3": 3, "unrelated": 1,
+               "customer.billing_address.contact": {"street": "flat street"}}),
+        json!({"customer": {"billing_address": {"contact": {"street": null, "postal": "ZZ9"}}}, "k7": 7, "k39": 39}),
+    ]
+}
+
 /// Capacity alphabet: single calls that use more distinct paths / numeric strings than any bounded
 /// per-thread table holds (70, 300), and small calls that use the first and last of them again.
 pub fn capacity_rules() -> Vec<Value> {
@@ -392,6 +445,7 @@ pub fn run(ctx: &mut Ctx) {
     run_alphabet(ctx, "tracer", tracer_rules(), error_exit_datas(), 30, 1);
     run_alphabet(ctx, "error-exit", error_exit_rules(), error_exit_datas(), 40, 1);
     run_alphabet(ctx, "capacity", capacity_rules(), capacity_datas(), 13, 1);
+    run_alphabet(ctx, "long-keys", long_key_rules(), long_key_datas(), 16, 2);
     run_alphabet(ctx, "twins", rules(), twin_datas(), 40, 2);
     run_alphabet(ctx, "lexer", lexer_rules(), lexer_datas(), 24, 2);
     run_alphabet(ctx, "main", rules(), datas(), 40, 3);
